@@ -577,11 +577,15 @@ func getMultiBestPath(id string, pathList []*Path) []*Path {
 	}
 	best := pathList[0]
 
-	// Attempt to find the first path that is both reachable and worse than the
-	// best path. Then return a slice paths from the best to that index.
-	index := sort.Search(len(pathList), func(i int) bool {
-		return pathList[i].IsNexthopInvalid || pathList[i].Compare(best) != 0
-	})
+	// Find the first path that is unreachable or worse than the best path,
+	// then return the slice of paths from the best up to that index. The
+	// list is ordered by criteria (e.g. LLGR_STALE) that this predicate does
+	// not look at, so it is not monotonic over the whole list and must be
+	// evaluated from the head rather than by binary search.
+	index := 1
+	for index < len(pathList) && !pathList[index].IsNexthopInvalid && pathList[index].Compare(best) == 0 {
+		index++
+	}
 	return pathList[:index]
 }
 
